@@ -2004,6 +2004,8 @@ class Explorer:
                 return ret(C(0, "bool"))
             if ty in ("u8", "u16", "u32", "u64", "usize"):
                 return ret(C(0, ty))
+            if re.match(r"^&('\w+ )?\[[\w:]+\]$", ty):
+                return ret(("arr", ()))          # <&[T]>::default() is the empty slice
             return None
         if p == "std::ops::Try::branch":
             v = args[0]
@@ -2060,7 +2062,7 @@ class Explorer:
                 return ret(C(0, ty))
             return None
         # ---- integer helper methods on constants
-        mnum = re.match(r"^std::num::<impl (u8|u16|u32|u64|u128|usize)>::(saturating_sub|saturating_add|checked_sub|checked_add|wrapping_sub|wrapping_add|min|max|pow)$", path)
+        mnum = re.match(r"^std::num::<impl (u8|u16|u32|u64|u128|usize)>::(saturating_sub|saturating_add|saturating_mul|checked_sub|checked_add|wrapping_sub|wrapping_add|min|max|pow)$", path)
         if mnum is None and p in ("std::cmp::Ord::min", "std::cmp::Ord::max") and len(args) == 2 and args[0][0] == "c" and args[1][0] == "c":
             return ret(C(min(args[0][1], args[1][1]) if p.endswith("min") else max(args[0][1], args[1][1]), args[0][2]))
         if mnum and len(args) == 2 and args[0][0] == "c" and args[1][0] == "c" and isinstance(args[0][1], int) and isinstance(args[1][1], int):
@@ -2072,6 +2074,8 @@ class Explorer:
                 return ret(C(max(x - y, lo), ty))
             if opn == "saturating_add":
                 return ret(C(min(x + y, hi), ty))
+            if opn == "saturating_mul":
+                return ret(C(min(x * y, hi), ty))
             if opn == "checked_sub":
                 return ret(AGG(OPT, "Some", (C(x - y, ty),)) if x - y >= lo else AGG(OPT, "None"))
             if opn == "checked_add":
@@ -2703,7 +2707,8 @@ class Explorer:
                 "std::option::Option::<T>::is_some_and": ("opt", "is_some_and"), "std::option::Option::<T>::is_none_or": ("opt", "is_none_or"),
                 "std::result::Result::<T, E>::is_ok_and": ("res", "is_ok_and"), "std::result::Result::<T, E>::is_err_and": ("res", "is_err_and"),
                 "std::option::Option::<T>::or_else": ("opt", "or_else"), "std::option::Option::<T>::map_or_else": ("opt", "map_or_else"),
-                "std::result::Result::<T, E>::unwrap_or_else": ("res", "unwrap_or_else_r"), "std::result::Result::<T, E>::and_then": ("res", "and_then_r")}
+                "std::result::Result::<T, E>::unwrap_or_else": ("res", "unwrap_or_else_r"), "std::result::Result::<T, E>::and_then": ("res", "and_then_r"),
+                "std::option::Option::<T>::filter": ("opt", "filter")}
         if p in COMB and self.closure_of(st, args[-1]) is not None and self.closure_of(st, args[-1])[1] in self.F.fns:
             return self.combinator(st, stack, fr, COMB[p], args, t, site, info, path)
         if p in COMB and self.fn_item_of(st, args[-1]) is not None and p != "std::option::Option::<T>::map_or_else":
@@ -2763,7 +2768,7 @@ class Explorer:
         # which variant runs the closure, and what the other variant yields
         run_on = {"map_or": "Some", "map": "Some" if fam == "opt" else "Ok", "and_then": "Some", "unwrap_or_else": "None", "map_err": "Err",
                   "is_some_and": "Some", "is_none_or": "Some", "is_ok_and": "Ok", "is_err_and": "Err", "or_else": "None",
-                  "unwrap_or_else_r": "Err", "and_then_r": "Ok"}.get(name)
+                  "unwrap_or_else_r": "Err", "and_then_r": "Ok", "filter": "Some"}.get(name)
         if name == "map_or_else":
             return None      # two closures: left opaque
 
@@ -2812,9 +2817,28 @@ class Explorer:
                 continue
             payload = [] if variant == "None" else [recv[3][0] if recv[0] == "agg" else SYM(self.cap(("field", recv[1], 0)))]
             ex = self
+            filt_payload = list(payload)
+            if name == "filter":
+                # the predicate sees `&payload`
+                self._cs_n = getattr(self, "_cs_n", 0) + 1
+                tmp = ("CS", "tmp", self._cs_n)
+                s2.heap[(tmp, ())] = payload[0]
+                payload = [("ref", tmp, ())]
 
-            def cont(st3, stack3, retv, dest=dest, target=target):
+            def cont(st3, stack3, retv, dest=dest, target=target, payload=payload):
                 fr3 = stack3[-1]
+                if name == "filter":
+                    # the predicate's verdict selects Some(payload) / None
+                    def fin(val):
+                        def go(s5, k5):
+                            ex.write_place(s5, k5[-1], dest, val, site)
+                            if target is None:
+                                ex.finish_path(s5, None, "diverge")
+                                return "stop"
+                            k5[-1].bb = target
+                            return None
+                        return go
+                    return ex.cseq_branch(st3, stack3, retv, fin(AGG(OPT, "Some", (filt_payload[0],))), fin(AGG(OPT, "None", ())))
                 ex.write_place(st3, fr3, dest, wrap(retv), site)
                 if target is None:
                     ex.finish_path(st3, None, "diverge")
@@ -2870,6 +2894,41 @@ class Explorer:
                 src_val = self.deref(st, a_) if a_[0] == "ref" else a_
                 break
         alts = []
+        # `iter.fold(init, |acc, x| ..)` over a source whose type bounds its length (the elements of an ArrayVec<_, N>): unrolled
+        # exactly - the accumulator is the initial value, then the closure's own previous result, the fold's value is the
+        # accumulator after 0 .. N elements.  (Over a source of unknown length the accumulator stays an unknown, below.)
+        if path.endswith("::Iterator>::fold") or path.endswith("::Iterator::fold"):
+            ncap = self.static_capacity(src_val) if (len(args) == 3 and i == 2 and callee["argc"] == 3) else None
+            if ncap is not None and ncap <= 8:
+                ex = self
+
+                def fold_cont(n):
+                    def cont(st2, stack2, retv):
+                        st2.effects.append(("closure_ret", clo[1], retv, n))
+                        if n < ncap:
+                            s3 = st2.clone()
+                            k3 = ex.clone_stack(stack2)
+                            ex.start_closure(s3, k3, k3[-1], callee, clo, args[i], dest, target, fold_cont(n + 1), n + 1, source=src_val, acc=retv)
+                            ex.work.append((s3, k3))
+                        ex.write_place(st2, stack2[-1], dest, retv, site)
+                        if target is None:
+                            ex.finish_path(st2, None, "diverge")
+                            return "stop"
+                        stack2[-1].bb = target
+                        return None
+                    return cont
+                s0 = st.clone()
+                k0 = self.clone_stack(stack)
+                self.write_place(s0, k0[-1], dest, args[1], site)
+                if target is not None:
+                    k0[-1].bb = target
+                    alts.append((s0, k0))
+                if ncap >= 1:
+                    s1 = st.clone()
+                    k1 = self.clone_stack(stack)
+                    self.start_closure(s1, k1, k1[-1], callee, clo, args[i], dest, target, fold_cont(1), 1, source=src_val, acc=args[1])
+                    alts.append((s1, k1))
+                return ("fork", alts)
         # 0 times
         s0 = st.clone()
         k0 = self.clone_stack(stack)
@@ -2907,7 +2966,45 @@ class Explorer:
             return "stop"
         return ("fork", alts)
 
-    def start_closure(self, st, stack, fr, callee, clo, cloarg, dest, target, cont, iteration, source=None):
+    def static_capacity(self, src):
+        """An upper bound on the number of elements an iterator yields that its source's TYPE guarantees: the iterator is
+        `.iter()` (possibly through deref / as_slice / copied / cloned) of a struct field declared `ArrayVec<_, N>`."""
+        s = src
+        for _ in range(8):
+            if s is None:
+                return None
+            for _i in range(4):
+                if len(s) == 2 and s[0] == "#" and isinstance(s[1], int):
+                    s = self.interned_rev.get(s[1], s)
+                elif s[0] == "sym" and isinstance(s[1], tuple) and len(s[1]) == 2 and s[1][0] == "#":
+                    s = ("sym", self.interned_rev.get(s[1][1], s[1]))
+                else:
+                    break
+            if s[0] == "sym" and isinstance(s[1], tuple) and s[1][0] == "call" and s[1][2] and \
+                    s[1][1].split("::")[-1] in ("iter", "deref", "as_slice", "copied", "cloned", "into_iter", "by_ref", "as_ref"):
+                s = s[1][2][0]
+                continue
+            if s[0] == "sym" and isinstance(s[1], tuple) and s[1][0] == "init" and isinstance(s[1][1], tuple) and s[1][1] and s[1][1][0] == "D" and not s[1][2]:
+                s = ("sym", s[1][1][1])
+                continue
+            break
+        if s[0] == "vec" and all(isinstance(it, tuple) and it and it[0] in ("c", "sym") for it in s[1]):
+            return len(s[1])          # a byte vector built on the path, element by element: its length is known
+        if not (s[0] == "sym" and isinstance(s[1], tuple) and s[1][0] == "init" and s[1][2] and s[1][2][-1][0] == "f"):
+            return None
+        _, fi, fname = s[1][2][-1][:3]
+        caps = set()
+        for adt in self.F.adts.values():
+            for v in adt.get("variants", []):
+                for f in v.get("fields", []):
+                    if f.get("name") == fname and f.get("i") == fi:
+                        m = re.match(r"^arrayvec::ArrayVec<.*, (\d+)(usize)?>$", f.get("ty", ""))
+                        caps.add(int(m.group(1)) if m else None)
+        if len(caps) == 1 and None not in caps:
+            return caps.pop()
+        return None
+
+    def start_closure(self, st, stack, fr, callee, clo, cloarg, dest, target, cont, iteration, source=None, acc=None):
         # closure parameters are unknown elements supplied by the higher-order function; they remember what they were drawn
         # from (the receiver of the higher-order call, e.g. `set.drain()`), so that rules can tell whose elements they are
         n = callee["argc"]
@@ -2915,6 +3012,9 @@ class Explorer:
         src = self.intern(source) if (source is not None and term_depth(source) > 3) else source
         for j in range(2, n + 1):
             ty = callee["locals"][j]
+            if acc is not None and j == 2:
+                cargs.append(acc)
+                continue
             elem = SYM(("elem", clo[1], j, iteration, src))
             if ty.startswith("&"):
                 obj = ("elem", clo[1], j, iteration, src)
